@@ -114,12 +114,13 @@ impl anstyle_parse::Perform for WinconCapture {
         for param in params {
             if let (State::Normal, [target @ (38 | 48 | 58), 2, _color_space, r, g, b]) = (state, param) {
                 // ITU T.416: `38:2:<color-space>:r:g:b`, the color space is ignored
-                let color = anstyle::RgbColor(*r as u8, *g as u8, *b as u8);
-                style = match target {
-                    38 => style.fg_color(Some(color.into())),
-                    48 => style.bg_color(Some(color.into())),
-                    _ => style.underline_color(Some(color.into())),
-                };
+                if let Some(color) = to_rgb_color(*r, *g, *b) {
+                    style = match target {
+                        38 => style.fg_color(Some(color.into())),
+                        48 => style.bg_color(Some(color.into())),
+                        _ => style.underline_color(Some(color.into())),
+                    };
+                }
                 continue;
             }
             for value in param {
@@ -213,12 +214,15 @@ impl anstyle_parse::Perform for WinconCapture {
                         g = None;
                     }
                     (State::Ansi256, n) => {
-                        let color = anstyle::Ansi256Color(n as u8);
-                        style = match color_target {
-                            ColorTarget::Fg => style.fg_color(Some(color.into())),
-                            ColorTarget::Bg => style.bg_color(Some(color.into())),
-                            ColorTarget::Underline => style.underline_color(Some(color.into())),
-                        };
+                        // An index outside of the palette doesn't name a color
+                        if let Ok(n) = u8::try_from(n) {
+                            let color = anstyle::Ansi256Color(n);
+                            style = match color_target {
+                                ColorTarget::Fg => style.fg_color(Some(color.into())),
+                                ColorTarget::Bg => style.bg_color(Some(color.into())),
+                                ColorTarget::Underline => style.underline_color(Some(color.into())),
+                            };
+                        }
                         state = State::Normal;
                         break;
                     }
@@ -230,12 +234,13 @@ impl anstyle_parse::Perform for WinconCapture {
                             g = Some(b);
                         }
                         (Some(r), Some(g)) => {
-                            let color = anstyle::RgbColor(r as u8, g as u8, b as u8);
-                            style = match color_target {
-                                ColorTarget::Fg => style.fg_color(Some(color.into())),
-                                ColorTarget::Bg => style.bg_color(Some(color.into())),
-                                ColorTarget::Underline => style.underline_color(Some(color.into())),
-                            };
+                            if let Some(color) = to_rgb_color(r, g, b) {
+                                style = match color_target {
+                                    ColorTarget::Fg => style.fg_color(Some(color.into())),
+                                    ColorTarget::Bg => style.bg_color(Some(color.into())),
+                                    ColorTarget::Underline => style.underline_color(Some(color.into())),
+                                };
+                            }
                             state = State::Normal;
                             break;
                         }
@@ -317,6 +322,14 @@ fn to_ansi_color(digit: u16) -> Option<anstyle::AnsiColor> {
         7 => Some(anstyle::AnsiColor::White),
         _ => None,
     }
+}
+
+/// A component outside of `0..=255` doesn't name a color
+fn to_rgb_color(r: u16, g: u16, b: u16) -> Option<anstyle::RgbColor> {
+    let r = u8::try_from(r).ok()?;
+    let g = u8::try_from(g).ok()?;
+    let b = u8::try_from(b).ok()?;
+    Some(anstyle::RgbColor(r, g, b))
 }
 
 #[cfg(test)]
